@@ -11,6 +11,10 @@ order on a finite map) resp. `vSpecRun` (last value received since `linked`).
 `Restr.noTakeDrop` restricts the *callback-trace* claims to update / remove / clear; for take / drop the callbacks are
 characterised separately (`C08_*take_drop*`). The only statement kept as a `def` with a `_fails` witness is F6 (the client
 folds its own writes into its replica).
+
+Last section (C08x): the mode switch of the client tasks. `run_io` has a second, separate loop (`Mode::Read`) that takes over
+when the write handle is dropped; `C08_read_only_mode_same_fold` shows that state, callbacks and termination are then those of
+the run in which the handle is never dropped, for both flags, every op sequence and every drop point.
 -/
 import SwimVerif.Proofs.DownlinkTask
 
@@ -304,5 +308,159 @@ theorem C08_client_take_drop_respect_dispatch :
     (MClient.run ⟨true, true⟩ {} (notes [.linked, .ev (.update 1 10), .ev (.update 2 20), .ev (.drop 1)])).2
       = [[.linked], [.update 1 none 10 [(1, 10)]], [.update 2 none 20 [(1, 10), (2, 20)]], [.remove 1 10 [(2, 20)]]] := by
   decide
+
+/-! ### the read-only mode (the write handle has been dropped)
+
+`MClientIO` / `VClientIO` = `run_io` with its `mode`: `MClient.step` / `VClient.step` are the `Mode::ReadWrite` arm,
+`stepRO` the separate `Mode::Read` loop entered at `IoOp.dropHandle` (and, value task, after a failed write:
+`IoOp.closeOut`). `neverDropped false ops` is the same run with the handle never dropped: the `drop-handle` / `close-out`
+ops removed, and the local writes after the first `drop-handle` removed (they can no longer happen). -/
+
+/-- The `Mode::Read` loop does to a notification, an undecodable frame and EOF exactly what the read arm of the
+`Mode::ReadWrite` loop does — same state, same callbacks, same termination — for both settings of both flags. -/
+theorem C08_read_only_loop_is_the_read_arm (c : Cfg) :
+    (∀ (s : MClient) (o : MOp), s.fin.isSome = false → o.isWrite = false → s.stepRO c o = s.step c o) ∧
+    (∀ (s : VClient) (o : VOp), s.fin.isSome = false → s.stepRO c o = s.step c o) :=
+  ⟨fun s o hf hw => MClient.stepRO_eq c s o hf hw, fun s o hf => VClient.stepRO_eq c s o hf⟩
+
+/-- **Read-only mode = the same fold.** For every configuration (both flags), every op sequence (notifications legal or
+not, local writes, undecodable frames, EOF) and every point(s) at which the handle is dropped / the output closed: the
+client's state and termination (`core` = replica + how it finished) are those of the run in which the handle is never
+dropped, the callbacks of every kept op are identical op by op, and the removed ops (the drop itself, the writes that can
+no longer happen) produce nothing. Map and value task. -/
+theorem C08_read_only_mode_same_fold (c : Cfg) :
+    (∀ ops : List (IoOp MOp),
+      (MClientIO.run c {} ops).1.core = (MClient.run c {} (neverDropped MOp.isWrite false ops)).1 ∧
+      keptOuts MOp.isWrite false ops (MClientIO.run c {} ops).2 = (MClient.run c {} (neverDropped MOp.isWrite false ops)).2 ∧
+      (∀ x ∈ removedOuts MOp.isWrite false ops (MClientIO.run c {} ops).2, x = [])) ∧
+    (∀ ops : List (IoOp VOp),
+      (VClientIO.run c {} ops).1.core = (VClient.run c {} (neverDropped VOp.isWrite false ops)).1 ∧
+      keptOuts VOp.isWrite false ops (VClientIO.run c {} ops).2 = (VClient.run c {} (neverDropped VOp.isWrite false ops)).2 ∧
+      (∀ x ∈ removedOuts VOp.isWrite false ops (VClientIO.run c {} ops).2, x = [])) :=
+  ⟨fun ops => mclientIO_run_eq c ops false {} ⟨fun _ => rfl, fun h => by cases h⟩,
+   fun ops => vclientIO_run_eq c ops false {}⟩
+
+/-- The same in the shape "a notification sequence, the handle dropped after `pre`": the outputs are those of the
+never-dropped client for `pre`, nothing for the drop, and then those of the never-dropped client continuing with `post`;
+the final state / termination are the same. -/
+theorem C08_read_only_mode_same_fold_at_any_drop_point (c : Cfg) (pre post : List Note) :
+    (MClientIO.run c {} (ionotes pre ++ .dropHandle :: ionotes post)).1.core
+      = (MClient.run c {} (notes (pre ++ post))).1 ∧
+    (MClientIO.run c {} (ionotes pre ++ .dropHandle :: ionotes post)).2
+      = (MClient.run c {} (notes pre)).2 ++ [] :: (MClient.run c (MClient.run c {} (notes pre)).1 (notes post)).2 ∧
+    (MClient.run c {} (notes pre)).2 ++ (MClient.run c (MClient.run c {} (notes pre)).1 (notes post)).2
+      = (MClient.run c {} (notes (pre ++ post))).2 := by
+  have ha := mclientIO_run_notes c pre {}
+  have hfin : ∀ s : MClientIO, (s.step c .dropHandle).1.core = s.core ∧ (s.step c .dropHandle).2 = [] := by
+    intro s
+    cases hf : s.core.fin.isSome <;> simp [MClientIO.step, hf]
+  have hb := mclientIO_run_notes c post ((MClientIO.run c {} (ionotes pre)).1.step c .dropHandle).1
+  rw [(hfin _).1, ha.1] at hb
+  have happ : notes (pre ++ post) = notes pre ++ notes post := by simp [notes]
+  rw [MClientIO.run_append, happ, MClient.run_append]
+  simp only [MClientIO.run, (hfin _).2, ha.2, hb.1, hb.2]
+  exact ⟨trivial, trivial, trivial⟩
+
+theorem C08_value_read_only_mode_same_fold_at_any_drop_point (c : Cfg) (pre post : List VNote) :
+    (VClientIO.run c {} (iovnotes pre ++ .dropHandle :: iovnotes post)).1.core
+      = (VClient.run c {} (vnotes (pre ++ post))).1 ∧
+    (VClientIO.run c {} (iovnotes pre ++ .dropHandle :: iovnotes post)).2
+      = (VClient.run c {} (vnotes pre)).2 ++ [] :: (VClient.run c (VClient.run c {} (vnotes pre)).1 (vnotes post)).2 ∧
+    (VClient.run c {} (vnotes pre)).2 ++ (VClient.run c (VClient.run c {} (vnotes pre)).1 (vnotes post)).2
+      = (VClient.run c {} (vnotes (pre ++ post))).2 := by
+  have ha := vclientIO_run_notes c pre {}
+  have hfin : ∀ s : VClientIO, (s.step c .dropHandle).1.core = s.core ∧ (s.step c .dropHandle).2 = [] := by
+    intro s
+    cases hf : s.core.fin.isSome <;> simp [VClientIO.step, hf]
+  have hb := vclientIO_run_notes c post ((VClientIO.run c {} (iovnotes pre)).1.step c .dropHandle).1
+  rw [(hfin _).1, ha.1] at hb
+  have happ : vnotes (pre ++ post) = vnotes pre ++ vnotes post := by simp [vnotes]
+  rw [VClientIO.run_append, happ, VClient.run_append]
+  simp only [VClientIO.run, (hfin _).2, ha.2, hb.1, hb.2]
+  exact ⟨trivial, trivial, trivial⟩
+
+/-- **State = fold also in read-only mode (map client, all five messages, both settings):** on every legal sequence, with
+the handle dropped at any point, the replica is the fold of the notifications received since it linked. -/
+theorem C08_client_state_is_fold_after_handle_dropped (c : Cfg) (pre post : List Note) (p : Phase)
+    (h : phaseRun legalAll c .U (pre ++ post) = some p) (hE : p ≠ .E) :
+    (MClientIO.run c {} (ionotes pre ++ .dropHandle :: ionotes post)).1.core.st.replica = specRun none (pre ++ post) := by
+  rw [(C08_read_only_mode_same_fold_at_any_drop_point c pre post).1]
+  exact C08_client_state_is_fold c (pre ++ post) p h hE
+
+/-- **Callbacks = those the fold implies, also in read-only mode (map client; update / remove / clear):** the per-notification
+callback lists before and after the drop point, put together, are exactly `specTrace` of the whole sequence — in
+particular nothing fires before `synced` when `events_when_not_synced` is off, `on_synced` sees the fold of that moment, and
+the task ends at `unlinked` exactly when `terminate_on_unlinked` is set. -/
+theorem C08_client_callbacks_are_fold_after_handle_dropped (c : Cfg) (pre post : List Note) (p : Phase)
+    (h : phaseRun legalBasic c .U (pre ++ post) = some p) :
+    ∃ a b, a.length = pre.length ∧ a ++ b = specTrace legalBasic c .U none (pre ++ post) ∧
+      (MClientIO.run c {} (ionotes pre ++ .dropHandle :: ionotes post)).2 = a ++ [] :: b := by
+  obtain ⟨_, h2, h3⟩ := C08_read_only_mode_same_fold_at_any_drop_point c pre post
+  refine ⟨_, _, ?_, ?_, h2⟩
+  · rw [MClient.run_length]; simp [notes]
+  · rw [h3]; exact C08_client_callbacks_in_order_with_true_old_new c (pre ++ post) p h
+
+/-- the value task: the same, against `vSpecTrace` -/
+theorem C08_value_callbacks_are_fold_after_handle_dropped (c : Cfg) (pre post : List VNote) (g : VG)
+    (h : vRunG c .U (pre ++ post) = some g) :
+    (∃ a b, a.length = pre.length ∧ a ++ b = vSpecTrace c .U (pre ++ post) ∧
+      (VClientIO.run c {} (iovnotes pre ++ .dropHandle :: iovnotes post)).2 = a ++ [] :: b) ∧
+    RelVC g (VClientIO.run c {} (iovnotes pre ++ .dropHandle :: iovnotes post)).1.core := by
+  obtain ⟨h1, h2, h3⟩ := C08_value_read_only_mode_same_fold_at_any_drop_point c pre post
+  have hv := C08_value_state_is_fold_and_client_eq_hosted c (pre ++ post) g h
+  refine ⟨⟨_, _, ?_, ?_, h2⟩, ?_⟩
+  · rw [VClient.run_length]; simp [vnotes]
+  · rw [h3]; exact hv.1
+  · rw [h1]; exact hv.2.2.2.1
+
+/-- The seeded mutation this section is about — the `Mode::Read` loop of the value task passing
+`terminate_on_unlinked, events_when_not_synced` in swapped order — changes the callbacks already for
+`[handle dropped] linked, event 5` under the default configuration; `VClient.stepRO` (the code as it is) does not. -/
+example : (vcRead { ews := (⟨false, true⟩ : Cfg).tou, tou := (⟨false, true⟩ : Cfg).ews } (.linked none) (.ev 5)).2.1
+    ≠ (vcRead ⟨false, true⟩ (.linked none) (.ev 5)).2.1 := by decide
+
+example : (VClientIO.run ⟨false, true⟩ {} [.dropHandle, .op (.note .linked), .op (.note (.ev 5)), .op (.note (.ev 6)),
+      .op (.note .synced), .op (.note (.ev 7)), .op (.note .unlinked), .op (.note .linked)]).2
+    = [[], [.linked], [], [], [.syncedV 6], [.event 7, .set (some 6) 7], [.unlinked], []] := by decide
+
+example : ((MClientIO.run ⟨false, true⟩ {} [.op (.note .linked), .op (.write (.update 2 20)), .dropHandle,
+      .op (.write (.update 3 30)), .op (.note (.ev (.update 1 10))), .op (.note .synced)]).2,
+    neverDropped MOp.isWrite false [.op (.note .linked), .op (.write (.update 2 20)), .dropHandle,
+      .op (.write (.update 3 30)), .op (.note (.ev (.update 1 10))), .op (.note .synced)])
+    = ([[.linked], [], [], [], [], [.syncedM [(1, 10), (2, 20)]]],
+       [.note .linked, .write (.update 2 20), .note (.ev (.update 1 10)), .note .synced]) := by decide
+
+/-- **Hosted channels:** dropping the handle (the stop trigger resolves to `Err`, the write stream ends) changes nothing
+for the notifications that follow — every op sequence without `reconnect` / `stop`, both settings, map and value. -/
+theorem C08_hosted_handle_dropped_same_fold (c : Cfg) :
+    (∀ ops : List (IoOp MOp), (∀ o ∈ ops, o ≠ .op .reconnect ∧ o ≠ .stop) →
+      (MHostedIO.run c {} ops).1.core = (MHosted.run c {} (neverDropped MOp.isWrite false ops)).1 ∧
+      keptOuts MOp.isWrite false ops (MHostedIO.run c {} ops).2 = (MHosted.run c {} (neverDropped MOp.isWrite false ops)).2 ∧
+      (∀ x ∈ removedOuts MOp.isWrite false ops (MHostedIO.run c {} ops).2, x = [])) ∧
+    (∀ ops : List (IoOp VOp), (∀ o ∈ ops, o ≠ .op .reconnect ∧ o ≠ .stop) →
+      (VHostedIO.run c {} ops).1.core = (VHosted.run c {} (neverDropped VOp.isWrite false ops)).1 ∧
+      keptOuts VOp.isWrite false ops (VHostedIO.run c {} ops).2 = (VHosted.run c {} (neverDropped VOp.isWrite false ops)).2 ∧
+      (∀ x ∈ removedOuts VOp.isWrite false ops (VHostedIO.run c {} ops).2, x = [])) :=
+  ⟨fun ops h => mhostedIO_run_eq c ops false {} h, fun ops h => vhostedIO_run_eq c ops false {} h⟩
+
+/-- `handle.stop()` does to a hosted channel what the end of its input does (a synthetic `on_unlinked` if linked, the
+replica cleared, the channel finished) — and, like a dropped handle, it rules out a restart
+(when it reaches a channel that has not finished yet; afterwards neither is looked at). -/
+theorem C08_hosted_stop_is_eof (c : Cfg) :
+    (∀ s : MHostedIO, s.stopRx = true →
+      (s.step c .stop).1.core = (s.core.step c .eof).1 ∧ (s.step c .stop).2 = (s.core.step c .eof).2 ∧
+      (s.core.fin.isSome = false →
+        ((s.step c .stop).1.step c (.op .reconnect)) = ((s.step c .stop).1, []) ∧
+        ((s.step c .dropHandle).1.step c (.op .reconnect)) = ((s.step c .dropHandle).1, []))) ∧
+    (∀ s : VHostedIO, s.stopRx = true →
+      (s.step c .stop).1.core = (s.core.step c .eof).1 ∧ (s.step c .stop).2 = (s.core.step c .eof).2 ∧
+      (s.core.fin.isSome = false →
+        ((s.step c .stop).1.step c (.op .reconnect)) = ((s.step c .stop).1, []) ∧
+        ((s.step c .dropHandle).1.step c (.op .reconnect)) = ((s.step c .dropHandle).1, []))) := by
+  refine ⟨fun s hs => ?_, fun s hs => ?_⟩
+  · cases hf : s.core.fin.isSome <;> cases hl : s.core.dl.isLinked <;> cases ht : c.tou <;>
+      simp_all [MHostedIO.step, MHosted.step]
+  · cases hf : s.core.fin.isSome <;> cases hl : s.core.dl.isLinked <;> cases ht : c.tou <;>
+      simp_all [VHostedIO.step, VHosted.step]
 
 end SwimVerif.Dl
